@@ -552,7 +552,7 @@ Result exec(const Plan& pl) {
     }
     Slots slots;
     std::vector<std::vector<SlotUse>> uses(static_cast<size_t>(nthr));
-    constexpr uint64_t THREAD_EDGE_BUDGET = 3000000000ull;   // a thread of this engine executes at most ~5e7 edges
+    constexpr uint64_t THREAD_EDGE_BUDGET = 400000000ull;   // a thread of this engine executes at most ~5e7 edges (about 3e7 edges/s under ASan)
     st.run([&](int me) {
         sim::set_edge_budget(THREAD_EDGE_BUDGET);
         for (size_t i = 0; i < prog[size_t(me)].size(); ++i) {
